@@ -557,6 +557,13 @@ func c08CacheCoherence(c *Ctx) {
 					}
 				}
 			}
+			ft := f.Type()
+			if pt, isPtr := ft.(*types.Pointer); isPtr {
+				ft = pt.Elem()
+			}
+			if nt, isNamed := ft.(*types.Named); isNamed {
+				c08ResetComplete(c, nt, construct)
+			}
 			c.check(ok, "cache-coherence", construct, p.Pos(f.Pos()), "dropped as a whole on every path of the revert", "a cache held by the chain object is not dropped as a whole on every path of the revert"+selective+": entries filled before a reorg keep answering for blocks the node no longer holds (a reverted hash keeps resolving to its old height)")
 		}
 	}
@@ -903,4 +910,98 @@ func c08PrefilledSliceComplete(c *Ctx) {
 	if n == 0 {
 		c.und("prefilled-slice-complete", "rpc", "", "no index-filled preallocated list found")
 	}
+}
+
+// c08ResetComplete: (cache-coherence, reset-complete clause) a module-defined cache object that the chain drops on revert
+// through its own Reset/Purge/Clear method must forget *everything* it remembers: every field of the cache type that one of
+// its methods writes after construction is also written (or purged) by the drop method. Seeded change C05-K adds a memo of
+// the running bloom window (runningCopy/runningNext, keyed by "next block") to AggregatedBloomFilterCache and leaves
+// Reset() — which RevertHead does call — purging the LRU only: after a reorg back to the same height the pre-reorg window
+// keeps answering event queries.
+func c08ResetComplete(c *Ctx, t *types.Named, construct string) {
+	p := c.P
+	st, ok := t.Underlying().(*types.Struct)
+	if !ok || t.Obj().Pkg() == nil || !strings.HasPrefix(t.Obj().Pkg().Path(), modPath) {
+		return
+	}
+	var drops []*ssa.Function
+	written := map[string]string{} // field → first writer (post-construction)
+	for _, fn := range p.sortedFuncs() {
+		if fn.Signature.Recv() == nil || fn.Origin() != nil || p.InFixture(fnPos(fn)) {
+			continue
+		}
+		rt := fn.Signature.Recv().Type()
+		if pt, isPtr := rt.(*types.Pointer); isPtr {
+			rt = pt.Elem()
+		}
+		if !types.Identical(rt, t) {
+			continue
+		}
+		switch fn.Name() {
+		case "Reset", "Purge", "Clear":
+			drops = append(drops, fn)
+			continue
+		}
+		// builders (return the receiver's type) configure the object before it is shared
+		if res := fn.Signature.Results(); res.Len() == 1 {
+			r0 := res.At(0).Type()
+			if pt, isPtr := r0.(*types.Pointer); isPtr {
+				r0 = pt.Elem()
+			}
+			if types.Identical(r0, t) {
+				continue
+			}
+		}
+		for _, g := range withAnons(fn) {
+			allInstrsOne(g, func(in ssa.Instruction) {
+				if s, ok := in.(*ssa.Store); ok {
+					if fa, ok := s.Addr.(*ssa.FieldAddr); ok && isNamedT(fa.X.Type(), t) {
+						if _, injected := s.Val.(*ssa.Parameter); injected {
+							return // a setter hands a collaborator in (WithFallback): configuration, not something remembered
+						}
+						fld := fieldName(fa.X.Type(), fa.Field)
+						if _, seen := written[fld]; !seen {
+							written[fld] = qname(fn) + " @" + p.Pos(posOf(in, g))
+						}
+					}
+				}
+			})
+		}
+	}
+	if len(drops) == 0 {
+		return
+	}
+	for i := 0; i < st.NumFields(); i++ {
+		fld := st.Field(i).Name()
+		w, isWritten := written[fld]
+		if !isWritten {
+			continue
+		}
+		handled := false
+		for _, d := range drops {
+			for _, g := range withAnons(d) {
+				allInstrsOne(g, func(in ssa.Instruction) {
+					if s, ok := in.(*ssa.Store); ok {
+						if fa, ok := s.Addr.(*ssa.FieldAddr); ok && fieldName(fa.X.Type(), fa.Field) == fld {
+							handled = true
+						}
+					}
+				})
+				for _, s := range sitesOf(g) {
+					if c08TouchesField(s, fld, []string{"Reset", "Purge", "Clear", "clear", "Store"}) {
+						handled = true
+					}
+				}
+			}
+		}
+		c.check(handled, "cache-coherence", construct+": "+t.Obj().Name()+"."+fld+" forgotten by "+drops[0].Name()+"()", p.Pos(st.Field(i).Pos()), "what the cache object remembers in this field is dropped by its "+drops[0].Name()+"()",
+			"the cache object's "+drops[0].Name()+"() — which the revert relies on — leaves field "+fld+" (written by "+w+") untouched: whatever is memoised there survives a reorg (a memo keyed by a height or a counter is re-used when the chain comes back to the same height with different blocks)")
+	}
+}
+
+func isNamedT(t types.Type, want *types.Named) bool {
+	if pt, ok := t.(*types.Pointer); ok {
+		t = pt.Elem()
+	}
+	return types.Identical(t, want)
 }
